@@ -690,6 +690,8 @@ func writeEvidence(root string, p *Prop, tier string, seed uint64, seeds []uint6
 		"distinct_interleavings":    traces,
 		"fault_kinds_fired":         st.Faults,
 		"rare_condition_probes":     st.Probes,
+		"distinct_model_states":     len(st.States),
+		"model_states_reached":      st.States,
 		"deadline_calls":            st.Deadlines,
 		"runs_per_hour":             int64(float64(st.Runs) / wall * 3600),
 		"seeds":                     seeds,
